@@ -140,28 +140,84 @@ type Case struct {
 	X, Y    *big.Int
 	Want    []*big.Int
 	Discard string
+	// Values: the evaluator's input as Go values (the inputValues argument of StreamEvaluator),
+	// if every member has a Go form: intN/uintN up to 64 bits, bool, arrays of uint8
+	Values []interface{}
+}
+
+// goValues turns the evaluator's argument - its bits are in y - into the Go values an application
+// would pass: the smallest Go integer type that holds each member (negative numbers for signed
+// members whose sign bit is set), bool, []byte. ok is false if a member has no Go form.
+func goValues(arg circuit.IOArg, y *big.Int) (vals []interface{}, ok bool) {
+	members := circuit.IO{arg}
+	if len(arg.Compound) > 0 {
+		members = arg.Compound
+	}
+	ofs := 0
+	for _, m := range members {
+		w := int(m.Type.Bits)
+		field := new(big.Int)
+		for b := 0; b < w; b++ {
+			field.SetBit(field, b, y.Bit(ofs+b))
+		}
+		ofs += w
+		switch m.Type.Type {
+		case types.TBool:
+			vals = append(vals, field.Bit(0) == 1)
+		case types.TUint:
+			if w == 0 || w > 64 {
+				return nil, false
+			}
+			u := field.Uint64()
+			switch {
+			case w <= 8:
+				vals = append(vals, uint8(u))
+			case w <= 16:
+				vals = append(vals, uint16(u))
+			case w <= 32:
+				vals = append(vals, uint32(u))
+			default:
+				vals = append(vals, u)
+			}
+		case types.TInt:
+			if w == 0 || w > 64 {
+				return nil, false
+			}
+			v := int64(field.Uint64())
+			if w < 64 && field.Bit(w-1) == 1 {
+				v -= 1 << uint(w) // the member's bits as the negative number they mean
+			}
+			switch {
+			case w <= 8:
+				vals = append(vals, int8(v))
+			case w <= 16:
+				vals = append(vals, int16(v))
+			case w <= 32:
+				vals = append(vals, int32(v))
+			default:
+				vals = append(vals, v)
+			}
+		case types.TArray:
+			if m.Type.ElementType == nil || m.Type.ElementType.Type != types.TUint || m.Type.ElementType.Bits != 8 {
+				return nil, false
+			}
+			b := make([]byte, w/8)
+			for i := range b {
+				for k := 0; k < 8; k++ {
+					b[i] |= byte(field.Bit(i*8+k)) << k
+				}
+			}
+			vals = append(vals, b)
+		default:
+			return nil, false
+		}
+	}
+	return vals, true
 }
 
 func argString(t *rt.Tape, a circuit.IOArg) (string, bool) {
 	bits := int(a.Type.Bits)
-	rnd := func(n int) *big.Int {
-		v := new(big.Int)
-		switch t.Choose(rt.SGen, 5) {
-		case 0:
-		case 1:
-			v.Sub(new(big.Int).Lsh(big.NewInt(1), uint(n)), big.NewInt(1))
-		default:
-			for b := 0; b < n; b += 16 {
-				x := t.Choose(rt.SGen, 1<<16)
-				for j := 0; j < 16 && b+j < n; j++ {
-					if x>>j&1 == 1 {
-						v.SetBit(v, b+j, 1)
-					}
-				}
-			}
-		}
-		return v
-	}
+	rnd := func(n int) *big.Int { return gen.Value(t, n, nil) } // structured and random values
 	switch a.Type.Type {
 	case types.TInt, types.TUint:
 		if bits == 0 {
@@ -209,11 +265,21 @@ func Prepare(t *rt.Tape, p Program, probe [][]int) (c *Case) {
 		if len(circ.Inputs[i].Compound) > 0 {
 			args = circ.Inputs[i].Compound
 		}
-		for _, a := range args {
+		for k, a := range args {
 			s, ok := argString(t, a)
 			if !ok {
 				c.Discard = "unsupported argument type " + a.Type.String()
 				return c
+			}
+			// one time in eight the evaluator's k-th value is the garbler's k-th value (equal operands)
+			if i == 1 && k < len(c.In[0]) && k < len(circ.Inputs[0].Compound)+1 && t.Choose(rt.SGen, 8) == 0 {
+				g := circ.Inputs[0]
+				if len(g.Compound) > 0 {
+					g = g.Compound[k]
+				}
+				if g.Type.Type == a.Type.Type && g.Type.Bits == a.Type.Bits {
+					s = c.In[0][k]
+				}
 			}
 			c.In[i] = append(c.In[i], s)
 		}
@@ -244,6 +310,9 @@ func Prepare(t *rt.Tape, p Program, probe [][]int) (c *Case) {
 		return c
 	}
 	c.Want = gen.Eval(circ, []*big.Int{c.X, c.Y})
+	if v, ok := goValues(circ.Inputs[1], c.Y); ok {
+		c.Values = v
+	}
 	return c
 }
 
@@ -277,6 +346,10 @@ func (s *otSpy) Send(wires []ot.Wire) error {
 	s.Wires = append(s.Wires, wires...)
 	return s.OT.Send(wires)
 }
+
+// UseValues is set per run by the C05 world: the evaluator passes its input as Go values
+// (inputValues) when the argument has a Go form.
+var UseValues bool
 
 // Verbose is set per run by the worlds: the verbose argument of StreamEvaluator and the Verbose
 // and Diagnostics parameters of the streaming compiler (reports, never results).
@@ -441,7 +514,13 @@ func RunReuse(t *rt.Tape, c, par, pre *Case, dir int, cut uint64, failedCompileF
 				ebP.Abort()
 			}
 			conn := p2p.NewConn(eb)
-			o.EIO, o.EOut, o.EErr = circuit.StreamEvaluator(conn, otE, c.In[1], nil, Verbose)
+			if UseValues && c.Values != nil {
+				// the other public form of the evaluator's input: Go values instead of strings
+				rt.Reach("evaluator-input.as-go-values")
+				o.EIO, o.EOut, o.EErr = circuit.StreamEvaluator(conn, otE, nil, c.Values, Verbose)
+			} else {
+				o.EIO, o.EOut, o.EErr = circuit.StreamEvaluator(conn, otE, c.In[1], nil, Verbose)
+			}
 			o.EDone = true
 			if o.EErr != nil {
 				eb.Abort()
@@ -509,6 +588,7 @@ func (w *c05) Run(t *rt.Tape, trace bool) *core.Result {
 			d.Frag = simnet.FragField
 		}
 	}
+	UseValues = t.Choose(rt.SGen, 3) == 0
 	Verbose = t.Choose(rt.SGen, 5) == 0
 	if Verbose {
 		res.Reach["option.verbose"]++
